@@ -117,6 +117,7 @@ def block(rnd, depth=0, with_tags=False, in_list=False):
             f = "~" * 7
         if depth == 0 and hasattr(rnd, "top_code"):
             rnd.top_code.append(code)          # what the generator knows to be code, independently of any parser
+            rnd.top_info.append(lang)
         return "%s%s\n%s\n%s" % (f, lang, code, f)
     if k == "indented":
         return "    code line\n    more  code"
@@ -146,6 +147,7 @@ META: dict = {}        # document text -> what the generator knows about it (ind
 def document(rnd, with_tags=False, nblocks=None, hazards=True):
     rnd.hazards = hazards
     rnd.top_code = []
+    rnd.top_info = []
     n = nblocks or rnd.choice((1, 2, 3, 4))
     rnd.ordered_delim = rnd.choice(".)")
     blocks = [block(rnd, 0, with_tags) for _ in range(n)]
@@ -165,7 +167,7 @@ def document(rnd, with_tags=False, nblocks=None, hazards=True):
         blocks.append("[^fn]: " + paragraph(rnd, with_tags=False, breaks=False, hazards=hazards)
                       + (("\n\n    " + paragraph(rnd, n=3, with_tags=False, breaks=False, hazards=False)) if rnd.random() < 0.4 else ""))
     doc = "\n\n".join(blocks) + "\n"
-    META[doc] = {"top_code": list(rnd.top_code)}
+    META[doc] = {"top_code": list(rnd.top_code), "top_info": list(rnd.top_info)}
     return doc
 
 
